@@ -61,8 +61,9 @@ def cases(tier):
 
 
 def thread_spawn_part(chk, tier):
-    """(e) thread-spawn under the controlled scheduler — HOOK, filled in by the scheduler work package."""
-    return
+    """(e) thread-spawn under the controlled scheduler (checks/c15_sched.py)"""
+    import c15_sched
+    return c15_sched.sched_part(chk, tier)
 
 
 def main(tier):
@@ -94,12 +95,19 @@ def main(tier):
         per_mode[mode] = len(part)
         ex.chk.sample({mode: part[len(part) // 2][2]})
     ex.chk.cov['random_get_delivers_what_host_getentropy_produced'] = sorted(o.split('delivered=')[1] for o in ex.outcomes.get('random_get', ()) if 'delivered=' in o and 'entropy=model' in o)
-    thread_spawn_part(ex.chk, tier)
+    import mclib
+    try:
+        spawn = thread_spawn_part(ex.chk, tier)
+    except mclib.MachineryError as e:
+        print('MACHINERY-ERROR C15: %s' % e)
+        return 2
     rule = ('(a) every argv vector of 0..%d strings over 5 string classes (environment = another vector of the same set) x 3 buffer placements x both name spaces; '
             '(b) clock_time_get/clock_res_get for ids 0..3 with the interposed host clock answering every non-decreasing 3-sequence of a 4-value menu, invalid ids, one run on the real clocks; '
-            '(c) random_get lengths with a model of getentropy and with the real one; (d) proc_exit codes; one forked child per case; '
+            '(c) random_get lengths with a model of getentropy and with the real one; (d) proc_exit codes; one forked child per case; (e) thread-spawn: concurrent spawns of 1-3 parent threads on the real wasi.c under the controlled scheduler, all interleavings up to the preemption bound in plain/TSan/ASan builds (thread_spawn_part block); '
             'states = distinct (call, errno, details) observations; distinct_nontrivial = distinct (call, outcome class) pairs' % (5 if tier == 'quick' else 6))
-    return ex.finish(rule, {'cases_per_part': per_mode, 'max_depth_completed': ex.longest, 'thread_spawn_part': 'not built here (hook thread_spawn_part)'},
+    return ex.finish(rule, {'cases_per_part': per_mode, 'max_depth_completed': ex.longest, 'thread_spawn_part': spawn,
+                            'states': len(ex.states) + spawn['distinct_end_states'], 'transitions': ex.transitions + spawn['transitions'],
+                            'traces_validated_against_impl': ex.histories + spawn['schedules'], 'evaluations': ex.histories + spawn['schedules']},
                      ['"every requested byte written" is decided by five calls on memory pre-filled with five different bytes: a position that keeps the pre-fill every time was not written',
                       'the model of getentropy follows POSIX/glibc: at most 256 bytes per call, EIO above'])
 
